@@ -10,12 +10,12 @@ NOTE_COMMON = ("Trusted: Lean 4.33 kernel + propext/Classical.choice/Quot.sound 
 CHECKS = {
  "C18": dict(
   text="Lean theorems (C18_side_prefix, C18_side_complete, C18_partition, C18_pred_once, C18_source_once, "
-       "C18_next_total, C18_exhaust) about an operational model of split (source, three tee buffers, map, two "
-       "compress objects) for every source, every condition and every sequence of next() calls; tied to "
+       "C18_next_total, C18_exhaust) about an operational model of split (source, condition, one map of (element, "
+       "decision) pairs, one tee buffer with two cursors, two generators) for every source, every condition and every sequence of next() calls; tied to "
        "aiuti.itertools.split by a bounded-exhaustive differential run that also compares pull and predicate logs",
-  note=NOTE_COMMON + "Modelled, not verified: CPython tee/compress/map pull order (validated by comparing "
+  note=NOTE_COMMON + "Modelled, not verified: CPython tee/map/generator pull order (validated by comparing "
        "pull and predicate logs on every case); exhaust() is modelled as a fold.",
-  tech="Lean 4 proof (refinement of the operational model to a cursor machine, induction over next() "
+  tech="Lean 4 proof (canonical form of the operational model, induction over next() "
        "sequences) + model/implementation differential", ref="§5 C18"),
  "C19": dict(
   text="Lean theorems (C19_spec, C19_split_first(_sound), C19_split_none, C19_shapes_agree, C19_no_sep_is_error, "
@@ -155,7 +155,9 @@ CHECKS = {
        "submitted element is queued | among the next loaders | captured by the timed read | being loaded | in the "
        "round's input set | delivered by a successful call, and nothing else is ever there), C03_only_submitted and "
        "C03_exactly_once (pairwise distinct arguments are never passed to two successful calls; both stated on the "
-       "output stream the differential compares), C03_all_delivered_at_rest, from the 21-clause "
+       "output stream the differential compares), C03_all_delivered_at_rest, C03_all_delivered_when_nothing_can_move "
+       "(AtRest - no zero-time step enabled, no timed event pending - implies everything submitted was delivered: the "
+       "machine never stops short; the driver reports rest= for every program), from the 21-clause "
        "machine invariant K (Buffer/Invariant.lean, InvStep.lean: preserved by every zero-time step, timed event "
        "and input); plus the step theorems C03_kept_on_failure, C03_delivered_on_success, addInputs_superset. Tied "
        "to BufferAsyncCalls by a virtual-time differential over random timed programs; monitor: every submitted "
@@ -173,7 +175,13 @@ CHECKS = {
        "waitRet record of the output stream has its entry, in order - returned only after everything submitted "
        "before it was called had been an argument of a successful call), C07_blocked_waiter_covered, "
        "C07_unfinished_exact (q's unfinished count = queued + captured-and-not-yet-loaded), for every program without "
-       "shutdown, any number of concurrent waiters, cancel or not; C07_shutdown_partial (cancelling the daemon "
+       "shutdown, any number of concurrent waiters, cancel or not; C07_wait_always_returns(_prefix) (Buffer/Rest.lean + "
+       "Waits.lean, invariant L on top of K and the accounting preorder Sub: if the machine is at rest after a program "
+       "whose foreign clears are closed, EVERY wait() the program issued has its waitRet in the output stream, nobody is "
+       "blocked in q.join() or on the flag, the flag is set and the daemon is idle with an empty queue - a wait() can "
+       "only fail to return if the machine runs for ever, never because it stopped with a waiter left behind; "
+       "C07_open_foreign_clear_blocks shows the hypothesis on foreign clears is needed; atRest_iff ties the driver's "
+       "rest= flag to the hypothesis); C07_shutdown_partial (cancelling the daemon "
        "terminates it in the idle and loading phases) and C07_counterexample_shutdown_{timer_armed,function_running,"
        "loading_captured} (`decide`d model runs in which the cancellation is swallowed and the daemon lives on: the "
        "full shutdown clause is false of the code, finding F5). Tie: virtual-time differential (wait(cancel=True/"
@@ -181,7 +189,7 @@ CHECKS = {
        "producers, failing calls) with a barrier monitor; shutdown is exercised asyncio.run-style at instants spread "
        "over each program: the model's verdict (terminates / hangs, phase) must equal the real loop's",
   note=NOTE_COMMON + "Known findings (known_findings.json): shutdown hangs in phases timer-armed, function-running, "
-       "loading-captured. Partial: 'wait() eventually returns' is differential + hang detector, not a theorem. "
+       "loading-captured. Partial: that the machine comes to rest (termination of the retry loop) is differential + hang detector + the driver's rest= flag, not a theorem; what rest looks like is (C07_wait_always_returns). "
        "Foreign-thread submit-then-wait_from_anywhere interleavings are explored on the real code under the baton "
        "scheduler and judged by the barrier monitor (not compared with the model line by line).",
   tech="Lean 4 proof (inductive invariant: barrier; phase theorem + decide counter-examples for shutdown) + "
@@ -363,7 +371,7 @@ def main():
      "notes": "See DESIGN.md. Genuine defects repaired in /repo by 'fix:' commits: 3779468 (F1, C15), 90a667a "
               "(F2, C01/C06), ab26aa5 (F3, C12), 9d605d2 (F4, C06), 72f5b5b (F6, C09), 9d9dc18 (F9, C12), 30ffe8c (F10, C03), "
               "b10dabe (F11, C04), a2363a7 (F12, C04), bc7512c (F13, C02/C12), a1c15da (F14, C15/C08), 246fb33 (F15, C20), df35f99 (F16, C12), fbcbea6 (F17, C04), "
-              "acc6cdb (F18, C10), 31f6c48 (F19, C07), 0d71334 (F20, C16), dfc1e75 (F21, C02/C13), be153ad (F22, C03/C07), 79af58b (F23, C18), 75f3c61 (F24, C20), d1c8bd9 (F25, C04), 39a39ee (F26, C13), 79a0d7d (F27, C16), 2a5879d (F28, C11/C15), 730e82f (F29, C05/C01), bf6dcaf (F30, C17), 75b611c (F31, C16); known, not repaired: F5 (C07 shutdown hang), F7 (C17 borrowed loop); see known_findings.json.",
+              "acc6cdb (F18, C10), 31f6c48 (F19, C07), 0d71334 (F20, C16), dfc1e75 (F21, C02/C13), be153ad (F22, C03/C07), 79af58b (F23, C18), 75f3c61 (F24, C20), d1c8bd9 (F25, C04), 39a39ee (F26, C13), 79a0d7d (F27, C16), 2a5879d (F28, C11/C15), 730e82f (F29, C05/C01), bf6dcaf (F30, C17), 75b611c (F31, C16), 51e1c49 (F32, C16), 4d988e0 (F33, C20), c794291 (F34, C17), 369f390 (F35, C11/C15), f63dd37 (F36, C13), f4eeaeb (F37, C10), c698ebe (F38, C05/C06), 9621836 (F39, C18); known, not repaired: F5 (C07 shutdown hang), F7 (C17 borrowed loop); see known_findings.json.",
      "not_applicable": [],
     }
     for pid in sorted(CHECKS):
